@@ -509,7 +509,10 @@ func TestVerifC19(t *testing.T) {
 			}
 		}(wi)
 	}
-	wg.Wait()
+	if !vfAwait(run, &wg, &stats.steps, 60, "resolution outcomes are no longer applied: no step completed for 60 s") {
+		vfFinish(t, run, 0)
+		return
+	}
 	if e := setupErr.Load(); e != nil {
 		t.Fatalf("C19 harness setup failed (needs loopback addresses 127.4.x.y): %v", e)
 	}
